@@ -207,6 +207,12 @@ def run_c15(R, tier, rng):
         if n > 127:       # narrow index dtypes on a long array
             idx8 = [-1, 3, -128, 127, n % 100]
             C.cmp(f"int8-array {tag} {idx8}", "int-array/int8", nt, lambda: dense_obs(mk()[np.array(idx8, dtype=np.int8)]), lambda: dense_obs(A[np.array(idx8, dtype=np.int8)]), py=f"rla[np.array({idx8}, dtype=np.int8)]  (length {n})")
+        if n > 127:       # long index lists in arbitrary order, with repeats and negatives
+            for m_ in (65, 100, 600):
+                idx = [rng.randrange(-n, n) for _ in range(m_)]
+                C.cmp(f"long-list {tag} {m_} indices", "list/long", nt, lambda: dense_obs(mk()[idx]), lambda: dense_obs(A[idx]), py=f"rla[{idx}]  (length {n})")
+                rot = [(i + 37) % n for i in range(min(n, m_))]
+                C.cmp(f"long-array {tag} rotated {len(rot)}", "int-array/long", nt, lambda: dense_obs(mk()[np.array(rot)]), lambda: dense_obs(A[np.array(rot)]), py=f"rla[np.array([(i + 37) % {n} for i in range({len(rot)})])]")
         for _ in range(3):
             idx = [rng.randrange(-n, n) for _ in range(rng.randint(1, 5))]
             C.cmp(f"list {tag} {idx}", "list", nt, lambda: dense_obs(mk()[idx]), lambda: dense_obs(A[idx]), py=f"rla[{idx}]  rla = from_array({a!r}, {dt})")
@@ -240,10 +246,13 @@ def run_c15(R, tier, rng):
             if tier != "thorough" and rng.random() < (.6 if n <= 3 else .93): continue
             C.cmp(f"slice {tag} [{st}:{sp}:{se}]", "slice", nt, lambda: rl_obs(mk()[st:sp:se], 1, with_canon=False), lambda: spec_rl(A[st:sp:se], canon=False),
                   py=f"RunLengthArray.from_array(np.array({a!r}, dtype='{dt}'))[{st}:{sp}:{se}]")
-        # windows: one (start, stop) pair per row, every window non-empty (a ragged run-length array has rows of length >= 1)
-        for _ in range(3):
+        # windows: one (start, stop) pair per row; every third set also holds empty windows (start == stop, start > stop)
+        for wi in range(3):
             k = rng.randint(1, 4)
             ss = [rng.randrange(0, n) for _ in range(k)]; ee = [rng.randint(s + 1, n) for s in ss]
+            if wi == 2:
+                ss += [n // 2, n, 0, min(n, 2)]; ee += [n // 2, n, 0, min(n, 2) - 1]
+                if all(s >= e for s, e in zip(ss, ee)): ss.append(0); ee.append(n)      # (the dtype of a result without elements is not compared)
             def win():
                 r = mk()[np.array(ss):np.array(ee)]
                 ra = r.to_array()
@@ -260,6 +269,21 @@ def run_c16(R, tier, rng):
     import numpy as np
     from npstructures import RunLengthArray
     C = Ctx(R, "rlearith")
+    # zeros of both signs in different runs (a few runs, and more runs than any plausible threshold): ufuncs that look at the sign of zero
+    for dt in ("float64", "float32"):
+        for nruns in (7, 700):
+            z = []
+            for i in range(nruns): z += [[0.0, 1.5, -0.0, 2.0, -0.0, -2.25, 0.0][i % 7]] * (1 + i % 3)      # never a zero next to a zero of the other sign: the encoder joins equal neighbours
+            Z = np.array(z, dtype=dt); tagz = f"{dt} signed zeros, {nruns} runs"
+            zs = [("signbit(r)", lambda r: np.signbit(r)), ("copysign(3.0, r)", lambda r: np.copysign(3.0, r)), ("copysign(r, -1.0)", lambda r: np.copysign(r, -1.0)),
+                  ("true_divide(1.0, r)", lambda r: np.true_divide(1.0, r)), ("arctan2(0.0, r)", lambda r: np.arctan2(0.0, r)), ("negative(r)", lambda r: np.negative(r)),
+                  ("multiply(r, -1.0)", lambda r: np.multiply(r, -1.0))]
+            for name, f in zs:
+                def impl_z():
+                    with np.errstate(all="ignore"): return rl_obs(f(RunLengthArray.from_array(Z)), 1, with_canon=False)
+                def spec_z():
+                    with np.errstate(all="ignore"): return spec_rl(f(Z), canon=False)
+                C.cmp(f"signed-zero {name} {tagz}", "signed-zero/" + name.split("(")[0], True, impl_z, spec_z, py=f"r = from_array(<{nruns} runs cycling 0.0, 1.5, -0.0, 2.0, -0.0, -2.25, 0.0>, {dt}); np.{name}")
     arrs = arrays(tier, rng, SMALL, maxn_exh=4)
     bylen = {}
     for dt, a in arrs: bylen.setdefault(len(a), []).append((dt, a))
